@@ -11,4 +11,31 @@ CHECKS = {
         'naive reference on every leaf. Small-scope exhaustiveness is the right level: the trie and tokenizers have no state '
         'beyond a few characters of context.',
    note=BASE_NOTE + 'Alphabet abstraction: one representative per character class the tokenizers distinguish.'),
+ 'C03': dict(engine='E1-choice-tree', design_ref='7/C03',
+   technique='exhaustive enumeration of structured literal shapes per culture against Decimal arithmetic',
+   text='Every literal built from (all small integers, 10^k and 10^k+/-1, the full cross product of per-group digit classes over five '
+        '3-digit groups) x fraction digit strings x {plain, grouped, negative, negative+grouped} x {alone, carrier} is run through the '
+        'real number and percentage models of all 10 cultures and compared with Decimal arithmetic and a literal table of culture marks. '
+        'Shape-exhaustive rather than value-exhaustive: 10^15 values cannot be enumerated, the grammar\'s compositional units can.',
+   note=BASE_NOTE + '15-significant-digit rounding is compared with one-ulp tolerance above 15 digits.'),
+ 'C13': dict(engine='E1-choice-tree', design_ref='7/C13',
+   technique='exhaustive enumeration of address/GUID/sequence literal shapes against own grammar rules and ipaddress',
+   text='IPv4: per octet position every spelling 0..999 and zero-padded forms x boundary octets; IPv6: every "::" position and length, '
+        'every hextet spelling of length 1-4 over {0,1,a,F} at every position, near-misses; GUID: every hex digit at every position x 4 '
+        'layouts x case; e-mail, URL (every listed TLD), hashtag, mention, phone templates with all digit fillings. Completeness and '
+        'soundness are checked on every leaf; workers keep one model for the whole run, so stale-state defects surface as '
+        'history-dependent failures.',
+   note=BASE_NOTE + 'ipaddress (standard library) is the address oracle.'),
+ 'C14': dict(engine='E1-choice-tree', design_ref='7/C14',
+   technique='exhaustive enumeration of the TIMEX grammar over field boundary sets, parse/format/parse fixpoint',
+   text='Every TIMEX form of the statement with all months, days 01-31, weeks 01-53, all 86,400 times of day, years from boundary sets '
+        '(thorough: every 7th year 0001-9999), durations, date+time combinations and from_date/from_date_time/from_time, checked for '
+        'field-preserving round trip, idempotent formatting and canonical identity against an independent formatter.',
+   note=BASE_NOTE),
+ 'C20': dict(engine='E1-choice-tree', design_ref='7/C20',
+   technique='exhaustive enumeration of the resource regex alternatives x case x context; neutral and mixed-polarity strings',
+   text='Every alternative of EnglishChoice.TrueRegex/FalseRegex (expanded mechanically from the resource text, emoji as code points, '
+        'all skin tones) x 3 letter cases x 26 contexts including fillers that contain listed words as substrings; all neutral token '
+        'sequences up to length 3; every ordered true/false pair x 3 separators; polarity, exact span, score range on every leaf.',
+   note=BASE_NOTE),
 }
